@@ -69,3 +69,13 @@ Definition answer_eqb (a b : answer) : bool :=
   | AAccessor x, AAccessor y => Bool.eqb x y
   | _, _ => false
   end.
+
+(* the `schedule` property and `schedule[j]`: the constructor stores the caller's mapping itself
+   (`self._schedule = schedule`), the property returns it, indexing is the dictionary lookup *)
+Definition stored_schedule (i : instance) (s : schedule) : schedule := s.
+Definition schedule_of_job (i : instance) (s : schedule) (j : job) : option (list psop) :=
+  sched_lookup (stored_schedule i s) j.
+
+Definition psop_eqb (a b : psop) : bool := op_eqb (fst a) (fst b) && option_eqb Z.eqb (snd a) (snd b).
+Definition schedule_eqb (a b : schedule) : bool :=
+  list_eqb (fun x y => job_eqb (fst x) (fst y) && list_eqb psop_eqb (snd x) (snd y)) a b.
